@@ -37,7 +37,7 @@ CONFIG = dict(
          'numbering; the random histories of the plan stream up to 14 / 40 commits; shapes of synth.GenHist.',
     exhaustive_note='all DAGs on <=5 topologically numbered commits (connected: 88 299 graph x hash-order cases, disconnected: '
                     '36 170) x all hash orders; thorough adds all connected DAGs on 6 commits x every sixth of the 720 hash orders; '
-                    'execution stream: all DAGs on <=5 commits x hibernation distance 0..3 (4 636 runs), thorough adds all DAGs on 6 commits',
+                    'execution stream: all DAGs on <=5 commits x hibernation distance 0..3 (4 396 runs), thorough adds all DAGs on 6 commits',
     assumptions=['commits are numbered so that parents have smaller numbers (every finite DAG has such a numbering; the '
                  'validator checks it) and the graph given to the validator is the history restricted to the analysed commit set',
                  'prepareRunPlan reads only Hash and ParentHashes of a commit (fabricated commits are used)',
